@@ -80,7 +80,7 @@ impl Prop for C01 {
         "model_checking"
     }
     fn rule(&self, _t: Tier) -> String {
-        "every string over the deb822 character-class alphabet up to the length bound (the full input trie: states = strings = trie nodes, transitions = trie edges), plus every sequence of line templates x line terminators up to the line bound (each also without its final character); each string is one execution of from_str, from_str_relaxed, read, read_relaxed and the lexer; non-trivial = distinct string whose token stream has >= 2 tokens (only cases known to be pairwise distinct are counted)".into()
+        "every string over the deb822 character-class alphabet up to the length bound (the full input trie: states = strings = trie nodes, transitions = trie edges), plus every sequence of line templates x line terminators up to the line bound (each also without its final character); plus one document per (token kind, length) with a single token stretched to 255 / 256 / 257 / 65535 / 65536 / 65537 characters; each string is one execution of from_str, from_str_relaxed, read, read_relaxed and the lexer; non-trivial = distinct string whose token stream has >= 2 tokens (only cases known to be pairwise distinct are counted)".into()
     }
     fn bounds(&self, t: Tier) -> Value {
         json!({"spaces": deb822_space(t).describe()})
@@ -100,6 +100,9 @@ impl Prop for C01 {
             for s in witness_strings() {
                 f(&StrCase { s, fresh: false });
             }
+            for s in long_token_docs() {
+                f(&StrCase { s, fresh: false });
+            }
         } else {
             explore_strs(&sp, shard, f)
         }
@@ -112,7 +115,7 @@ impl Prop for C01 {
             let (d, errs) = Deb822::from_str_relaxed(s);
             let printed = d.to_string();
             if printed != s {
-                out.push(viol("relaxed-roundtrip", format!("printed {:?}", printed)));
+                out.push(viol("relaxed-roundtrip", format!("printed {}", crate::strings::brief(&printed))));
             }
             let strict = Deb822::from_str(s);
             if strict.is_ok() != errs.is_empty() {
@@ -124,14 +127,14 @@ impl Prop for C01 {
             if let Ok(d2) = &strict {
                 let p2 = d2.to_string();
                 if p2 != s {
-                    out.push(viol("strict-roundtrip", format!("printed {:?}", p2)));
+                    out.push(viol("strict-roundtrip", format!("printed {}", crate::strings::brief(&p2))));
                 }
             }
             // readers over bytes
             match Deb822::read_relaxed(std::io::Cursor::new(s.as_bytes())) {
                 Ok((d3, e3)) => {
                     if d3.to_string() != s || e3 != errs {
-                        out.push(viol("read-relaxed-agrees", format!("printed {:?} errors {:?}", d3.to_string(), e3)));
+                        out.push(viol("read-relaxed-agrees", format!("printed {} errors {:?}", crate::strings::brief(&d3.to_string()), e3)));
                     }
                 }
                 Err(e) => out.push(viol("read-relaxed-agrees", format!("io error {}", e))),
@@ -155,7 +158,7 @@ impl Prop for C01 {
                 match Deb822::read_relaxed(crate::strings::ChunkReader::new(s.as_bytes(), *k)) {
                     Ok((d5, e5)) => {
                         if d5.to_string() != s || e5 != errs {
-                            out.push(viol("read-relaxed-agrees", format!("{}-byte reads: printed {:?} errors {:?}", k, d5.to_string(), e5)));
+                            out.push(viol("read-relaxed-agrees", format!("{}-byte reads: printed {} errors {:?}", k, crate::strings::brief(&d5.to_string()), e5)));
                         }
                     }
                     Err(e) => out.push(viol("read-relaxed-agrees", format!("{}-byte reads: io error {}", k, e))),
@@ -163,7 +166,7 @@ impl Prop for C01 {
                 match Deb822::read(crate::strings::ChunkReader::new(s.as_bytes(), *k)) {
                     Ok(d6) => {
                         if !strict.is_ok() || d6.to_string() != s {
-                            out.push(viol("read-agrees", format!("{}-byte reads: read ok printing {:?}, strict ok={}", k, d6.to_string(), strict.is_ok())));
+                            out.push(viol("read-agrees", format!("{}-byte reads: read ok printing {}, strict ok={}", k, crate::strings::brief(&d6.to_string()), strict.is_ok())));
                         }
                     }
                     Err(_) => {
@@ -184,7 +187,7 @@ impl Prop for C01 {
                 match Deb822::from_file_relaxed(path) {
                     Ok((d7, e7)) => {
                         if d7.to_string() != s || e7 != errs {
-                            out.push(viol("read-relaxed-agrees", format!("from_file_relaxed: printed {:?} errors {:?}", d7.to_string(), e7)));
+                            out.push(viol("read-relaxed-agrees", format!("from_file_relaxed: printed {} errors {:?}", crate::strings::brief(&d7.to_string()), e7)));
                         }
                     }
                     Err(e) => out.push(viol("read-relaxed-agrees", format!("from_file_relaxed: {}", e))),
@@ -192,7 +195,7 @@ impl Prop for C01 {
                 match Deb822::from_file(path) {
                     Ok(d8) => {
                         if !strict.is_ok() || d8.to_string() != s {
-                            out.push(viol("read-agrees", format!("from_file ok printing {:?}, strict ok={}", d8.to_string(), strict.is_ok())));
+                            out.push(viol("read-agrees", format!("from_file ok printing {}, strict ok={}", crate::strings::brief(&d8.to_string()), strict.is_ok())));
                         }
                     }
                     Err(_) => {
@@ -206,11 +209,11 @@ impl Prop for C01 {
             let toks = deb822_lossless::verif::lex(s);
             let cat: String = toks.iter().map(|(_, t)| t.as_str()).collect();
             if cat != s || toks.iter().any(|(_, t)| t.is_empty()) {
-                out.push(viol("lexer-partition", format!("tokens {:?}", toks)));
+                out.push(viol("lexer-partition", format!("tokens {}", crate::strings::brief(&format!("{:?}", toks)))));
             }
             let tt = tree_tokens(&d);
             if tt != toks {
-                out.push(viol("tree-tokens-equal-lexer", format!("tree {:?} lexer {:?}", tt, toks)));
+                out.push(viol("tree-tokens-equal-lexer", format!("tree {} lexer {}", crate::strings::brief(&format!("{:?}", tt)), crate::strings::brief(&format!("{:?}", toks)))));
             }
             (out, toks.len(), errs.is_empty())
         });
@@ -296,6 +299,27 @@ fn w_chars() -> Vec<char> {
 }
 /// every lexer-mode witness prefix x every ASCII char and some non-ASCII chars x suffix:
 /// these strings get the full C01 check as well (not only the class comparison).
+/// Lengths around the limits of the narrow integer types (a length or offset kept in a u8 / u16 wraps there).
+pub const WIDTH_LIMITS: [usize; 6] = [255, 256, 257, 65535, 65536, 65537];
+
+/// One document per (token kind, length): a single token of that kind stretched to the length, between ordinary lines.
+pub fn long_token_docs() -> Vec<String> {
+    let mut v = vec![];
+    for n in WIDTH_LIMITS {
+        v.push(format!("A: {}\nB: c\n", "v".repeat(n))); // value
+        v.push(format!("A: {}\nB: c\n", "\u{e9}".repeat(n))); // value of two-byte characters
+        v.push(format!("A: b\n {}\nB: c\n", "w".repeat(n))); // continuation line
+        v.push(format!("#{}\nA: b\n", "c".repeat(n))); // comment
+        v.push(format!("{}: v\nB: c\n", "K".repeat(n))); // field name
+        v.push(format!("A: b\n{}c\nD: e\n", " ".repeat(n))); // indentation
+        v.push(format!("A:{}b\nB: c\n", " ".repeat(n))); // blanks after the colon
+        v.push(format!("A: b\n{}C: d\n", "\n".repeat(n))); // blank lines
+        v.push(format!("{}\nA: b\n", "x".repeat(n))); // a malformed line
+        v.push(format!("A: {}", "v".repeat(n))); // unterminated last token
+    }
+    v
+}
+
 pub fn witness_strings() -> Vec<String> {
     let mut v = vec![];
     for p in W_PREFIXES {
